@@ -33,6 +33,12 @@ def gen_cases(tr, sd):
         g = larkgen.gen_grammar(rng, attrs=False)
         g["origin"] = "seed%d" % sd
         cases.append(g)
+    # parametric rules: the compiled table is expanded over the reachable (symbol, parameter) pairs with a Python evaluator written from
+    # docs/parametric.md, the reference is expanded from the generator's own structured form (the Rust evaluator is decided by Kani)
+    for i in range(40 if tr == "quick" else 400):
+        g = larkgen.gen_parametric(rng)
+        g.update(origin="parametric-seed%d" % sd, rules={}, names=[])
+        cases.append(g)
     return cases
 
 
@@ -96,12 +102,22 @@ def _work(args):
         out["note"] = "terminal mapping failed: used %s, literal lexemes %s" % (sorted(used), sorted(lit))
         return out
     cg = gram.parse_grammar_text(res["cgrammar"], res.get("cgrammar_start"))
-    ref = larkgen.reference_cfg(case, lit)
-    t0 = time.time()
-    c_ok, m_ok, F = nullable_queries(res)
-    out["solver_s"] += time.time() - t0
-    out["queries"] += 2
-    out["nullable"] = (c_ok, m_ok)
+    if case.get("pref"):
+        try:
+            ref = larkgen.parametric_reference(case["pref"], lit)
+            # compiled table: lines "A ⇦ ϵ %if cond" are conditional nullable flags and are read as conditional epsilon rules
+            cg = gram.expand_parametric(cg)
+        except (ValueError, KeyError) as ex:
+            out["status"] = "skip"
+            out["note"] = "parametric expansion failed: %r" % (ex,)
+            return out
+    else:
+        ref = larkgen.reference_cfg(case, lit)
+        t0 = time.time()
+        c_ok, m_ok, F = nullable_queries(res)
+        out["solver_s"] += time.time() - t0
+        out["queries"] += 2
+        out["nullable"] = (c_ok, m_ok)
     terms = cg.terminals() | ref.terminals()
     if len(cg.trimmed().binarized().nonterminals()) + len(ref.trimmed().binarized().nonterminals()) > 160:
         out["status"] = "skip_big"
@@ -169,7 +185,7 @@ def run():
     viol = []
     cands = []
     samples = []
-    work = [(i, dict(rules=c["rules"], names=c["names"]), results[i], N) for i, c in enumerate(cases)]
+    work = [(i, dict(rules=c["rules"], names=c["names"], pref=c.get("pref")), results[i], N) for i, c in enumerate(cases)]
     with ProcessPoolExecutor(max_workers=14) as ex:
         for o in ex.map(_work, work, chunksize=2):
             i = o["idx"]
@@ -213,7 +229,7 @@ def run():
         # reference verdicts on the concrete text
         lit = {}
         ref_tid = {ch: ord(ch) for ch in larkgen.TERMS}
-        ref = larkgen.reference_cfg(c, ref_tid)
+        ref = larkgen.parametric_reference(c["pref"], ref_tid) if c.get("pref") else larkgen.reference_cfg(c, ref_tid)
         word = [ord(ch) for ch in cd["text"]]
         want_acc = gram.recognizes(ref, word)
         pg = gram.prefix_grammar(ref)
